@@ -240,20 +240,28 @@ def model_term(case, D):
 
 
 def scale_of(case, D):
+    """magnitude of the terms that are summed (for the tolerance of inexact comparisons)"""
     def mx(flat):
         return max([1.0] + [abs(complex(*x)) if isinstance(x, list) else abs(x) for x in flat])
+    op = case["op"].replace("s_", "")
     m = mx(case["data"]) * (mx(case["data2"]) if case.get("data2") else 1.0)
     n = int(np.prod(D.sizes))
-    vm = D.volmax() ** (2 * D.k)
-    if case["op"] in ("prod", "s_prod"):
+    if op == "prod":
         return float(m ** n)
-    return float((1 + m) ** 2 * n * vm * 4)
+    vm = 1.0
+    if op in ("integrate", "mean", "var", "std"):
+        vm = D.volmax() ** D.k
+    if op == "weight":
+        vm = D.volmax() ** (D.k * max(1, abs(case.get("power", 1))))
+    return float((1 + m) ** 2 * n * vm)
 
 
 def check_term(case, D, out):
     k = D.k
     exact = D.exact and case["op"] in ("sum", "prod", "integrate", "weight", "vdot", "s_sum", "s_prod", "s_integrate",
                                        "s_vdot", "add", "sub", "mul", "adds", "muls", "rsubs")
+    if case["op"] in ("prod", "s_prod") and scale_of(case, D) > 2.0 ** 50:
+        exact = False        # the product itself leaves the exactly representable integers
     eps = Fraction(0) if exact else Fraction(scale_of(case, D)) / 2 ** 40
     if out[0] == "err":
         impl = "(@None (tens %d))" % k
